@@ -108,6 +108,22 @@ BUILT = {
             'Trusts the frame/segment recomputation in vkit/oracles/shapes.py and the library k(lambda) of catalogue '
             'media; rays within 1e-9 of an aperture edge are not judged.',
             'DESIGN.md §4 C16'),
+    'C08': ('reference-model monitor: Aberrations / AberrationOperand vs independent Welford surface contributions evaluated on the library\'s own paraxial rays; identity, stop-shift and real-ray-limit monitors',
+            'Exploration: 264 (quick) / ~9k (thorough) sphere/plane lenses (refracting and reflecting, catalogue glasses for '
+            'colour, every stop position, finite/infinite objects, all aperture and field kinds) plus the 22 conic-free '
+            'samples; every per-surface term, the five sums, the family identities, every accessor and operand, '
+            'stop-shift invariance of S_I/S_IV and the small-aperture real-ray limit of the transverse spherical term.',
+            'Trusts vkit/oracles/seidel.py (three algebraically different S_V forms cross-checked at run time) and the '
+            'convention frozen once on a BK7 singlet; the library\'s own paraxial rays and indices are inputs (C04/C18 check those).',
+            'DESIGN.md §4 C08'),
+    'C09': ('reference-model monitor: Wavefront / OPD / OPDFan / RmsWavefrontErrorVsField / OPD_difference vs W recomputed from separately traced rays, the ABCD exit pupil and an own line-sphere intersection',
+            'Exploration: 240 (quick) / ~19k (thorough) lens/field/wavelength/distribution cases in the statement\'s domain '
+            '(infinite object + angle, finite object + height), real and virtual exit pupils, air and immersed image '
+            'space, focused and defocused; W must agree within 1e-6 waves at every documented pupil sample, the chief ray '
+            'must give exactly 0, RMS/fans/vs-field/operand must be that W on their samples.',
+            'Exit pupil from the independent ABCD oracle; either sphere root accepted (one root for the whole pupil; per ray '
+            'only for pupils aberrated by thousands of waves); lenses with an asphere r^2 term excluded (C04 finding).',
+            'DESIGN.md §4 C09'),
 }
 
 NOT_YET = {}
